@@ -220,6 +220,26 @@ func runInvalidForkScenario(r *mon.Run, stream uint64, regime string, d, L, k in
 	if !step(forkNodes) {
 		return
 	}
+	// the valid prefix of the failed fork alone: its blocks were validated (and
+	// stored with their supplements) by the reorg attempt that was rolled back;
+	// offered again - all of them "already known" - they still have to be
+	// adopted when they are heavier than the tip
+	if d > 1 {
+		prefix := forkNodes[:d-1]
+		if prefix[len(prefix)-1].L.State.SufficientlyHeavierThan(a.Tip.L.State) {
+			r.Count("validated_prefix_of_failed_fork_resubmitted:heavier", 1)
+		}
+		parts := [][]*chainlab.Node{prefix}
+		if rng.IntN(2) == 0 {
+			// from genesis, as a syncing peer would send it
+			parts = [][]*chainlab.Node{prefix[len(prefix)-1].PathFromGenesis()}
+		}
+		for _, part := range parts {
+			if !step(part) {
+				return
+			}
+		}
+	}
 	// resubmit the failed fork with two more blocks on top
 	y := t.ExtendHeaderOnly(t.ExtendHeaderOnly(x))
 	if !step(append(append([]*chainlab.Node{}, forkNodes...), y.Parent, y)) {
@@ -395,6 +415,7 @@ func runC01(r *mon.Run, replay string) {
 	}
 	r.Floor("reorgs_observed", 10)
 	r.Floor("near_tie:submitted_heavier_within_margin", 10)
+	r.Floor("validated_prefix_of_failed_fork_resubmitted:heavier", 5)
 	r.Floor("near_tie:submitted_sufficiently_heavier", 10)
 	r.Floor("prevalidated_on_invalid_ancestor:was_heavier", 10)
 	r.Floor("calls_audited", 500)
